@@ -104,3 +104,41 @@ func VerifC03DUID(n int) {
 	_ = d.Equal(d)
 	verifReach("end")
 }
+
+// VerifC03Concurrent: two goroutines use two different decoded messages at the same time (print
+// them, walk their options, re-encode them), as a server's handlers do. Values decoded from
+// different datagrams share nothing, so this must be free of data races: a read-only operation
+// that writes to package-level state (a cache, a table) is reported by the happens-before
+// analysis and confirmed with go test -race — in Go such a race on a map is a fatal error.
+func VerifC03Concurrent(n int) {
+	verifRaceDetect(true)
+	mk := func(tag string) DHCPv6 {
+		wire := []byte{verifU8(tag + ".type"), 1, 2, 3, verifU8(tag + ".code.hi"), verifU8(tag + ".code.lo"), 0, byte(n)}
+		wire = append(wire, verifBytes(tag+".payload", n)...)
+		verifAssume(wire[0] != 12)
+		verifAssume(wire[0] != 13)
+		verifAssume(wire[4] >= 0xf0) // unassigned option codes
+		d, err := FromBytes(wire)
+		if err != nil {
+			return nil
+		}
+		return d
+	}
+	a, b := mk("a"), mk("b")
+	if a == nil || b == nil {
+		verifReach("end")
+		return
+	}
+	done := make(chan struct{})
+	go func() {
+		_ = a.Summary()
+		_ = a.String()
+		_ = a.ToBytes()
+		close(done)
+	}()
+	_ = b.Summary()
+	_ = b.String()
+	_ = b.ToBytes()
+	<-done
+	verifReach("end")
+}
